@@ -364,9 +364,9 @@ func deep(f *fnSpec) bool { return f.Syn && (f.Type.NumIn() >= 3 || f.Type.IsVar
 
 func TestExhaustive(t *testing.T) {
 	needSetup(t)
-	maxLen, ecalEvery := 2, 6
+	maxLen, ecalEvery := 2, 6 // every 6th vector also through ECAL source (period 7: spreads over 4 shards)
 	if hx.Thorough() {
-		maxLen, ecalEvery = 3, 25
+		maxLen, ecalEvery = 3, 24 // period 25: spreads over 16 shards
 	}
 	allU := append(append([]string{}, baseU...), extU...)
 	n := 0
@@ -404,8 +404,8 @@ func TestExhaustive(t *testing.T) {
 				continue
 			}
 			if !vectors(allU, 2, func(v []string) bool {
-				for _, t := range v {
-					if !inBase[t] {
+				for _, tok := range v {
+					if !inBase[tok] {
 						return emit(yield, f, v)
 					}
 				}
@@ -503,12 +503,12 @@ func TestProp(t *testing.T) {
 		}
 		nIn := f.Type.NumIn()
 		n := nIn
-		switch rapid.IntRange(0, 9).Draw(rt, "arity") {
-		case 0, 1:
+		switch rapid.IntRange(0, 9).Draw(rt, "arity") { // 0..5: exact arity
+		case 6, 7:
 			n = rapid.IntRange(0, 6).Draw(rt, "len")
-		case 2:
+		case 8:
 			n = nIn + 1
-		case 3:
+		case 9:
 			if nIn > 0 {
 				n = nIn - 1
 			}
